@@ -409,6 +409,9 @@ def cq_lrow_conv(r, numpy_like):
     return f"(option_map (map (from_pandas {cq_bool(numpy_like)})) {cq_lrow(r)})"
 
 
+LAST_ORDER = [None]
+
+
 def table_to_value(rng, schema, t, form=None):
     """python-level value offered to the library for one row (the chosen form is left in LAST_FORM)"""
     if t is None:
@@ -418,9 +421,11 @@ def table_to_value(rng, schema, t, form=None):
     LAST_FORM[0] = form
     # a table is a table whatever the order of its columns: now and then offered in another order than the fields of the column
     order = list(zip(schema, t.values()))
+    LAST_ORDER[0] = None
     if len(order) > 1 and rng.random() < 0.5:
         k = rng.randint(1, len(order) - 1)
         order = order[k:] + order[:k]          # never the identity
+    LAST_ORDER[0] = [k_ for (k_, _), _ in order]
     if form == "dict":
         return {k: list(v) for (k, _), v in order}
     if form == "dict_arrow":
@@ -526,6 +531,7 @@ def op_iterate(rng, inp):
 
 def op_setitem(rng, inp, malformed=False, via_series=False, force_multi=False, force_ragged=False):
     arr, n = inp["arr"], len(inp["rows"])
+    box_term = "true"
     schema = inp["schema"]
     kind = rng.choice(["int", "slice", "mask", "idx", "idx"])
     if via_series and kind == "slice":
@@ -601,6 +607,11 @@ def op_setitem(rng, inp, malformed=False, via_series=False, force_multi=False, f
         t = None if ((rng.random() < 0.25 and not force_ragged) or via_series) else gen_table(rng, schema, ragged=ragged, nan_ok=True)
         value = table_to_value(rng, schema, t)
         nl = numpy_like_form(LAST_FORM[0])
+        if t is not None and LAST_ORDER[0] is not None:
+            # the table as offered (its columns in the order they were offered) against the row the model is given (Box.v)
+            box_term = (f"chk_box {cq_list(cq_str(nm_) for nm_, _ in schema)} "
+                        f"{cq_list('(' + cq_str(k_) + ', ' + cq_vals(t[k_]) + ')' for k_ in LAST_ORDER[0])} "
+                        f"{cq_list(cq_vals(t[nm_]) for nm_, _ in schema)}")
         mval = f"(SRow {cq_lrow_conv(table_to_lrow(schema, t), nl)})"
         sval = f"(ARow {cq_lrow_conv(table_to_lrow(schema, t), nl)})"
         vrows = [denan_lrow(table_to_lrow(schema, t), nl)] * cnt
@@ -685,7 +696,7 @@ def op_setitem(rng, inp, malformed=False, via_series=False, force_multi=False, f
         agree = res[0] == "err"
     opname = "setitem_series" if via_series else "setitem"
     return col_case(inp, opname, f"m_setitem P {mkey} {mval}", f"spec_col_setitem L {skey} {sval}", res,
-                    {"key_kind": kind, "key": str(key)[:80], "value": vdesc}, py_agree=agree,
+                    {"key_kind": kind, "key": str(key)[:80], "value": vdesc}, py_agree=agree, monitor_term=box_term,
                     trivial=(targets is not None and len(targets) == 0),
                     extra_meta={"key_kind": kind, "ragged_value": bool(ragged), "seq_as_scalar": seq_as_scalar,
                                 "neg_step": kind == "slice" and (key.step or 1) < 0})
